@@ -265,6 +265,9 @@ func genNum(maxv int) colGen {
 		case 0:
 			return fmt.Sprintf("%d.5", v), false
 		case 1:
+			if v == 0 && rng.Intn(2) == 0 {
+				return "-0.0", false // the negative zero: a float equal to 0.0
+			}
 			return fmt.Sprintf("%d.0", v), false
 		case 2:
 			return fmt.Sprintf(" %d ", v), false
